@@ -23,19 +23,26 @@ META = {
                   "the reply was DECIDED (frame complete + value materialised) before the expiry; wait raises at exactly max(start, expiry, "
                   "end of the last receive+dispatch) and never before the expiry; sync_request / proxy operations = async_request with the "
                   "configured timeout then value; timed = async then set_expiry. The statement's own clauses hold under explicit hypotheses "
-                  "(whole frames, instantly materialised replies; isolated callbacks or none raising; atomic registration or none split) and "
-                  "are REFUTED by witness theorems where the current tree violates them (4 findings). Timeout's arithmetic and the skeletons of "
+                  "(whole frames, instantly materialised replies; isolated callbacks or none raising an Exception; atomic registration or none "
+                  "split) and are REFUTED by witness theorems where the tree violates or violated them; 'late only when serving' is proved in the "
+                  "weaker form 'late only when busy with another message: an unrelated request or another pending result's reply and callbacks'. Timeout's arithmetic and the skeletons of "
                   "every anchored method (current or repaired form) are regenerated on every run and tied by reflexivity; the extracted model is "
                   "compared with the real classes on generated histories.",
     "level_note": "Trusted: Coq kernel, pygen, extraction + driver, harness (fake stream, virtual clock, the two-thread schedule is realised with a "
-                  "real second thread parked inside list.append). Outside: rounding of real poll()/time.time(); contention on the receive lock "
-                  "(C12-C14); callbacks that re-enter the result are exercised by the oracle only (not in the model); the class of a remote "
-                  "exception is not modelled (a remote TimeoutError is indistinguishable from the timeout error by type, the harness tells "
-                  "them apart by the remote traceback attribute). 'Reply arrives' = its frame is completely received. set_expiry() called "
-                  "again after the expiry passed starts a new expiry by the API's own definition (relative to now): finality of 'expired' is "
-                  "stated between set_expiry calls, finality of a value unconditionally. Findings on the current tree: "
-                  "timely-reply-discarded:decided-after-unboxing and wait:late-timeout:blocked-receiving-a-frame (no small repair), "
-                  "callbacks:aborted-by-raising-callback and callbacks:lost-in-registration-race (repair proposed).",
+                  "real second thread parked just before it takes the result's lock, or inside list.append when there is no lock). SCOPE: "
+                  "'a reply arrives' = its frame has been completely received BY A THREAD OF THE CALLER (a reply left unread in the socket "
+                  "until after the expiry has not arrived: the result is expired). The dispatch of a frame including the callbacks it triggers "
+                  "is one step of the model: the relative order of a callback registered by a second thread WHILE the callbacks of the arrival "
+                  "run and that running loop is not claimed (in the code it runs at once). The model's raising callbacks raise an Exception; "
+                  "BaseException-raising and re-entrant callbacks are exercised by the oracle only. Materialising a reply's value is bounded "
+                  "by sync_request_timeout in the model (the request then receives the connection's own timeout error as its exception). "
+                  "Outside: rounding of real poll()/time.time(); contention on the receive lock (C12-C14); the class of a remote exception "
+                  "(a remote TimeoutError is told apart by the remote traceback attribute). set_expiry() called again after the expiry passed "
+                  "starts a new expiry (relative to now): finality of 'expired' is stated between set_expiry calls, finality of a value "
+                  "unconditionally. Findings: timely-reply-discarded:decided-after-unboxing, wait:late-timeout:blocked-receiving-a-frame, "
+                  "value:timeout-error-from-materialising-reply, wait:late-timeout:running-callbacks-of-another-result (no small repair); "
+                  "callbacks:aborted-by-raising-callback, callbacks:lost-in-registration-race (fixed in /repo), "
+                  "callbacks:aborted-by-baseexception-callback (repair proposed).",
     "technique": "Coq proof by induction over histories with ghost dispatch/registration logs; generated Timeout functions and method "
                  "skeletons tied by reflexivity; refutation witnesses by computation; differential correspondence of the extracted model on a "
                  "virtual clock",
@@ -47,7 +54,8 @@ META = {
         "virtual time: the fake stream's poll(timeout) returns at min(first byte of the next scripted frame, now + timeout.timeleft()) "
         "exactly; read() blocks until the scripted completion instant of the frame; a tie between arrival and deadline is resolved by "
         "a per-case flag (both ways are generated)",
-        "one serving thread per history; the only second thread is the one registering a callback (test / append split)",
+        "one serving thread per history; the only second thread is the one registering a callback (parked between entering add_callback "
+        "and taking the lock / appending); it never runs concurrently with a callback loop",
     ],
 }
 
@@ -64,6 +72,11 @@ K1 = "timely-reply-discarded:decided-after-unboxing"
 K2 = "wait:late-timeout:blocked-receiving-a-frame"
 F4 = "callbacks:aborted-by-raising-callback"
 F9 = "callbacks:lost-in-registration-race"
+K3 = "wait:late-timeout:running-callbacks-of-another-result"
+K4 = "value:timeout-error-from-materialising-reply"
+F5 = "callbacks:aborted-by-baseexception-callback"
+TMARK = -999          # model/Async.v tmark: the connection's own timeout error, delivered as a reply's exception
+DEFAULT_CFG = 120     # sync_request_timeout = 30 s
 
 
 class Hang(Exception):
@@ -127,6 +140,8 @@ class Stream(object):
         self.last = (0, 0)         # (tick first byte seen, tick complete) of the frame read last
         self.unbox_dur = 0
         self.serial = 0
+        self.hold_until = None     # the peer is busy with a class inquiry it will not answer in time: nothing else comes before
+        self.inspect_seqs = set()
         self.wbuf = b""
 
     # ---- reading side
@@ -134,6 +149,18 @@ class Stream(object):
         now = self.clock.tick
         if self.cur is not None:
             return True
+        if self.hold_until is not None:
+            if now >= self.hold_until:
+                self.hold_until = None
+            else:
+                tl = timeout.timeleft()
+                if tl is None or tl < 0:
+                    raise Hang()
+                dl = min(now + tl / TICK, self.hold_until)
+                self.clock.tick = int(dl) if dl == int(dl) else dl
+                if self.clock.tick >= self.hold_until:
+                    self.hold_until = None
+                return False
         a = self.script[0][0] if self.script else None
         if a is not None and a <= now:
             return True
@@ -175,6 +202,14 @@ class Stream(object):
                                (consts.HANDLE_PING, (consts.LABEL_TUPLE, ((consts.LABEL_VALUE, b"D%d" % max(0, p)),)))))
         elif kind == 3:        # the peer's answer to the INSPECT request that unboxing a slow reply issued
             data = brine.dump((consts.MSG_REPLY, p, (consts.LABEL_TUPLE, ())))
+        elif p:               # the reply to ANOTHER pending request of this connection, whose callbacks run p ticks
+            self.serial += 1
+            seq = 900000 + self.serial
+
+            def other(is_exc, obj, p=p):
+                self.clock.tick += p
+            self.conn._request_callbacks[seq] = other
+            data = brine.dump((consts.MSG_REPLY, seq, (consts.LABEL_VALUE, 0)))
         else:
             data = brine.dump((consts.MSG_REPLY, 999999, (consts.LABEL_VALUE, 0)))
         return Channel.FRAME_HEADER.pack(len(data), 0) + data + Channel.FLUSHER
@@ -221,8 +256,13 @@ class Stream(object):
             self.res = self.conn._request_callbacks.get(seq)
             self.clock.tick += self.send_dur          # sending takes time; the expiry is armed afterwards
         elif msg == consts.MSG_REQUEST and args[0] == consts.HANDLE_INSPECT:
-            t = self.clock.tick + self.unbox_dur      # the peer answers the class inquiry unbox_dur ticks later
-            self.script.insert(0, [t, t, 3, seq, 0, 0])
+            self.inspect_seqs.add(seq)
+            cfg = self.conn._config["sync_request_timeout"]
+            if cfg is not None and cfg >= 0 and self.unbox_dur >= cfg / TICK:
+                self.hold_until = self.clock.tick + cfg / TICK      # the peer does not answer before the inquiry times out
+            else:
+                t = self.clock.tick + self.unbox_dur      # the peer answers the class inquiry unbox_dur ticks later
+                self.script.insert(0, [t, t, 3, seq, 0, 0])
         elif msg == consts.MSG_REPLY and isinstance(args[1], bytes) and args[1][:1] == b"D":
             self.clock.tick += int(args[1][1:])       # the unrelated request kept this thread busy
 
@@ -238,21 +278,32 @@ def opt_sx(t):
 
 
 def gen_flags():
-    """the two generated facts the model is parameterised with (coq/gen/Gen_async_.v of this run)"""
-    try:
-        txt = open(C.COQ + "/gen/Gen_async_.v").read()
-    except OSError:
-        return 0, 0
+    """the generated facts the model is parameterised with, read from the translator in-process (coq/gen on disk may have
+    been rewritten by a concurrent check of another tree)"""
     global DECODE_FAILURE_DELIVERED
-    DECODE_FAILURE_DELIVERED = "response_decode_failure_delivered : bool := true" in txt
-    return int("callbacks_isolated : bool := true" in txt), int("add_callback_atomic : bool := true" in txt)
+    DECODE_FAILURE_DELIVERED = C.gen_fact("async_", "response_decode_failure_delivered", default=False)
+    return (int(C.gen_fact("async_", "callbacks_isolated", default=False)),
+            int(C.gen_fact("async_", "add_callback_atomic", default=False)))
 
 
 DECODE_FAILURE_DELIVERED = False
 
 
+def cfg_of(case):
+    """the configured sync_request_timeout (ticks) under which a reply's value is materialised"""
+    return case["timeout"] if case["mode"] in (1, 3) else case.get("cfg", DEFAULT_CFG)
+
+
+def eff_reply(case, m):
+    """[exception?, value] a reply stands for, given that materialising it is bounded by the configured timeout"""
+    cfg = cfg_of(case)
+    if m[3] == 0 and m[5] and finite_of(cfg) and m[5] >= cfg:
+        return [1, TMARK]
+    return [int(m[3] != 0), m[4]]
+
+
 def case_sx(case, flags):
-    return ["hist", [case["mode"], int(case["tie"]), flags[0], flags[1]], case["t0"], opt_sx(case["timeout"]), case["send_dur"],
+    return ["hist", [case["mode"], int(case["tie"]), flags[0], flags[1], opt_sx(cfg_of(case))], case["t0"], opt_sx(case["timeout"]), case["send_dur"],
             [[a, c, k, (int(p != 0) if k == 0 else int(p)), q, u] for a, c, k, p, q, u in case["queue"]],
             [[k, (opt_sx(p) if k in (2, 8) else (p or 0)), int(bool(r))] for k, p, r in case["actions"]]]
 
@@ -272,6 +323,8 @@ BAD_LABEL = re.compile(r"^invalid label \('bad', (-?\d+)\)$")
 def exc_value(e):
     """the number an exception stands for: a remote exception carries it, the local 'cannot rebuild this payload' error names it"""
     a = e.args[0] if e.args else None
+    if isinstance(e, TimeoutError) and not hasattr(e, "_remote_tb") and e.args == ("result expired",):
+        return TMARK
     m = BAD_LABEL.match(a) if isinstance(a, str) else None
     return int(m.group(1)) if m else a
 
@@ -294,10 +347,43 @@ class HookList(list):
 
     def append(self, f):
         run = self.run
-        if run.b_thread is not None and threading.current_thread() is run.b_thread:
+        if run.b_thread is not None and threading.current_thread() is run.b_thread and not run.b_parked:
+            run.b_parked = True
             run.b_q.put("at-append")
             run.b_go.wait(60)
         list.append(self, f)
+
+
+class ParkLock(object):
+    """res._lock for a split registration: the registering thread parks just before it takes the lock (whether it has
+    already tested readiness by then is the code's business -- that is what the schedule probes)"""
+
+    def __init__(self, real, run):
+        self.real, self.run = real, run
+
+    def _park(self):
+        run = self.run
+        if run.b_thread is not None and threading.current_thread() is run.b_thread and not run.b_parked:
+            run.b_parked = True
+            run.b_q.put("at-append")
+            run.b_go.wait(60)
+
+    def acquire(self, *a, **k):
+        self._park()
+        return self.real.acquire(*a, **k)
+
+    def release(self):
+        return self.real.release()
+
+    def __enter__(self):
+        self._park()
+        return self.real.__enter__()
+
+    def __exit__(self, *a):
+        return self.real.__exit__(*a)
+
+    def locked(self):
+        return self.real.locked()
 
 
 def _held(lock):
@@ -351,6 +437,7 @@ class Run(object):
         self.b_thread = None
         self.b_q = _queue.Queue()
         self.b_go = threading.Event()
+        self.b_parked = False
         self.race = None        # id of a registration during whose split the result became ready
         orig = self.conn._dispatch
 
@@ -360,7 +447,7 @@ class Run(object):
             ours = msg in (consts.MSG_REPLY, consts.MSG_EXCEPTION) and seq == self.chan.our_seq \
                 and seq in self.conn._request_callbacks
             kind = 1 if msg == consts.MSG_REQUEST else (0 if seq == self.chan.our_seq else
-                                                        3 if seq not in (999999, 424242) else 2)
+                                                        3 if seq in self.chan.inspect_seqs else 2)
             try:
                 orig(data)
             finally:
@@ -389,6 +476,8 @@ class Run(object):
     def start(self):
         case, conn = self.case, self.conn
         t = real_timeout(case["timeout"])
+        if case["mode"] in (0, 2):
+            conn._config["sync_request_timeout"] = real_timeout(cfg_of(case))
         if case["mode"] == 0:
             self.res = conn.async_request(consts.HANDLE_PING, b"x", timeout=t)
         elif case["mode"] == 2:
@@ -413,7 +502,7 @@ class Run(object):
         except (ValueError, TimeoutError) as e:
             if hasattr(e, "_remote_tb"):          # the reply's own exception (its class may well be TimeoutError)
                 return [3, e.args[0]]
-            if isinstance(e, ValueError) and isinstance(exc_value(e), int) and e is getattr(self.res or self.chan.res, "_obj", None):
+            if isinstance(exc_value(e), int) and e is getattr(self.res or self.chan.res, "_obj", None):
                 return [3, exc_value(e)]          # the error met while rebuilding the reply, delivered as the request's exception
             if isinstance(e, AsyncResultTimeout):
                 return [4]
@@ -451,11 +540,12 @@ class Run(object):
         res = self.res
         if self.pend is not None:
             return [0]
-        if self.atomic_impl:
-            self.pend = (c, raises)
-            return [0]
         if not isinstance(res._callbacks, HookList):
             res._callbacks = HookList(res._callbacks, self)
+        lk = getattr(res, "_lock", None)
+        if lk is not None and not isinstance(lk, ParkLock):
+            res._lock = ParkLock(lk, self)
+        self.b_parked = False
         f = self.cb(c, raises)
         self.b_go.clear()
 
@@ -489,8 +579,6 @@ class Run(object):
         c, raises = self.pend
         self.pend = None
         self.regs.append([c, self.clock.tick, raises])
-        if self.atomic_impl:
-            return self.observe(lambda: [0] if self.res.add_callback(self.cb(c, raises)) is None else [99])
         if self.res._is_ready:
             self.race = c            # the result became ready between the test and the append
         self.b_go.set()
@@ -618,6 +706,9 @@ class Oracle(object):
         elif last is not None and last[2] == T and last[3] == 0 and last[2] > last[1]:
             if self.root is None:
                 self.root = K1
+        elif last is not None and last[2] == T and last[3] == 2 and last[2] > last[1] and last[0] <= tmax:
+            if self.root is None:
+                self.root = K3          # busy, but not serving a request: running the callbacks of another pending result's reply
         elif last is not None and last[2] == T and last[3] == 1 and last[0] <= tmax:
             return                      # busy serving a request that arrived by the expiry
         self.report("wait:late-timeout", "wait raised the timeout error later than the expiry instant without being busy serving a request",
@@ -690,6 +781,12 @@ def impl_run(case, report=None, note=None, atomic_impl=False):
                     orc.report("query:error-wrong", "error query disagrees with the outcome", o, want, where)
             elif k in (6, 7):
                 val = [0] if k == 7 else ([3, value_of(res._obj)] if res._is_exc else [2, value_of(res._obj)])
+                if o == [3, TMARK] and orc.root is None:
+                    # .value raised the connection's own timeout error although the result is not expired: it is the reply's
+                    # exception, produced when materialising the reply's value timed out under sync_request_timeout
+                    orc.root = K4
+                    orc.report(K4, "value raised the timeout error before the expiry / without one: materialising the reply timed out",
+                               [o, T], "the reply's value, or the timeout error at the expiry", where)
                 if before == "got":
                     if o != val or T != busy_end:
                         orc.report("wait:value-not-available", "wait/value on a ready result did not return its value without waiting",
@@ -725,7 +822,7 @@ def impl_run(case, report=None, note=None, atomic_impl=False):
             st = orc.check_state(where)
             if st == "got":
                 msgs = [m for m in case["queue"] if m[2] == 0]
-                if msgs and [int(bool(res._is_exc)), value_of(res._obj)] != reply_value(msgs[0]):
+                if msgs and [int(bool(res._is_exc)), value_of(res._obj)] != eff_reply(case, msgs[0]):
                     orc.report("final:value-changed", "the value is not the one of the (first) reply", repr(res._obj), msgs[0], where)
         return trace, r.final()
     finally:
@@ -734,10 +831,14 @@ def impl_run(case, report=None, note=None, atomic_impl=False):
 
 def sync_oracle(case, first, r, report, atomic_impl):
     """a synchronous request / proxy operation behaves as async_request(timeout=configured).value"""
-    twin = dict(case, mode=0, actions=[[6, None, 0]])
+    twin = dict(case, mode=0, cfg=case["timeout"], actions=[[6, None, 0]])
     tr2, fin2 = impl_run(twin, atomic_impl=atomic_impl)
     mine = [canon_obs(first), r.clock.tick]
     name = "sync_request" if case["mode"] == 1 else "proxy operation (netref.syncreq)"
+    if canon_obs(first) == [3, TMARK] and tr2[0] == mine:
+        report(K4, "%s raised the timeout error before the configured expiry: materialising the reply timed out" % name,
+               mine, "the reply's value, or the timeout error at the expiry", name)
+        return
     if tr2[0] != mine:
         report("sync-differs-from-async", "%s does not behave as async_request with the configured timeout followed by .value" % name,
                mine, tr2[0], name)
@@ -771,6 +872,8 @@ def gen_case(r, max_actions):
     timeout = gen_timeout(r)
     send_dur = r.choice([0, 0, 0, 1, 3])
     tmax = t0 + send_dur + timeout if finite_of(timeout) else t0 + send_dur + 6
+    cfg = r.choice([DEFAULT_CFG] * 6 + [2, 4, 8, None])      # the configured sync_request_timeout (modes 0 and 2)
+    cfg_eff = timeout if mode in (1, 3) else cfg
     queue = []
     have_reply = False
     for _ in range(r.choice([0, 1, 1, 2, 2, 3, 4, 6])):
@@ -779,13 +882,15 @@ def gen_case(r, max_actions):
         c = r.random()
         if c < (0.25 if have_reply else 0.6):
             p = r.choice([0, 0, 0, 0, 0, 0, 1, 1, 2, 3])
-            u = r.choice([1, 2, 3, 6]) if (p == 0 and mode in (0, 2) and r.random() < 0.15) else 0
+            u = 0
+            if p == 0 and r.random() < 0.15:                  # the value needs a round trip; now and then longer than allowed
+                u = r.choice([1, 2, 3, 6] + ([max(1, cfg_eff), cfg_eff + 2, max(1, cfg_eff - 1)] if finite_of(cfg_eff) and cfg_eff < 50 else []))
             queue.append([a, cpl, 0, p, r.choice([0, 1, 7, -5, 123456789]), u])
             have_reply = True
         elif c < 0.9:
             queue.append([a, cpl, 1, r.choice([0, 1, 1, 2, 3, 7]), 0, 0])
         else:
-            queue.append([a, cpl, 2, 0, 0, 0])
+            queue.append([a, cpl, 2, r.choice([0, 0, 0, 1, 3, 10]), 0, 0])     # another pending result's reply; its callbacks run p ticks
     if r.random() < 0.93:
         queue.sort(key=lambda m: m[0])
     actions = []
@@ -833,8 +938,11 @@ def gen_case(r, max_actions):
                 actions.append([8, r.choice([0, 0, 1, 2, 5, -1, None]), 0])
         if commit_in is not None or r.random() < 0.02:
             actions.append([10, None, 0])
-    return {"mode": mode, "tie": int(r.random() < 0.5), "t0": t0, "timeout": timeout, "send_dur": send_dur,
+    case = {"mode": mode, "tie": int(r.random() < 0.5), "t0": t0, "timeout": timeout, "send_dur": send_dur,
             "queue": queue, "actions": actions}
+    if mode in (0, 2) and cfg != DEFAULT_CFG:
+        case["cfg"] = cfg
+    return case
 
 
 def directed_cases():
@@ -859,6 +967,14 @@ def directed_cases():
     for mode in (1, 3):
         for a in (2, 3, 4):
             out.append(dict(base, mode=mode, timeout=3, queue=[[a, a, 0, 0, 5, 0]], actions=[]))
+        for u in (1, 2, 5):                      # synchronous request, timeout 3 (also bounds the class inquiry), reply at 1 needs u ticks
+            out.append(dict(base, mode=mode, timeout=3, queue=[[1, 1, 0, 0, 5, u]], actions=[]))
+    for timeout in (None, 40):                   # the class inquiry is never answered: configured timeout 8 / the default
+        for cfg, u in ((8, 130), (8, 8), (8, 7), (DEFAULT_CFG, 130), (None, 130)):
+            out.append(dict(base, timeout=timeout, cfg=cfg, queue=[[4, 4, 0, 0, 42, u]],
+                            actions=A([1, 1, 0], [6, None, 0], [5, None, 0], [3, None, 0], [4, None, 0])))
+    for d in (0, 1, 10):                         # expiry 5: the reply to another pending request at 3, its callbacks run d ticks
+        out.append(dict(base, timeout=5, queue=[[3, 3, 2, d, 0, 0]], actions=A([7, None, 0], [5, None, 0])))
     return out
 
 
@@ -998,6 +1114,38 @@ def check_reentrant(ctx):
             r.close()
 
 
+def check_baseexception(ctx):
+    """oracle only (the model's raising callbacks raise an Exception): a callback that raises KeyboardInterrupt / SystemExit /
+    GeneratorExit must not make the callbacks behind it disappear"""
+    for i, exc in enumerate((KeyboardInterrupt, SystemExit, GeneratorExit)):
+        case = {"mode": 0, "tie": 0, "t0": 0, "timeout": 40, "send_dur": 0, "queue": [[3, 3, 0, 0, 42, 0]], "actions": [],
+                "baseexception": exc.__name__}
+        r = Run(case)
+        try:
+            r.start()
+            res, log = r.res, []
+
+            def cb1(x, exc=exc):
+                log.append(1)
+                raise exc("from a callback")
+            res.add_callback(cb1)
+            res.add_callback(lambda x: log.append(2))
+            try:
+                res.wait()
+                got = "returned"
+            except BaseException as e:
+                got = type(e).__name__
+            res.add_callback(lambda x: log.append(3))
+            ctx.case(("baseexception", exc.__name__), nontrivial=True)
+            ctx.count("baseexception-callback")
+            if log != [1, 2, 3] or not res._is_ready:
+                ctx.violation(F5, case, observed={"log": log, "wait": got, "still registered": len(res._callbacks)}, expected=[1, 2, 3],
+                              what="a callback raising %s at the arrival made the callbacks registered behind it disappear: "
+                                   "they never run, a later one does" % exc.__name__)
+        finally:
+            r.close()
+
+
 def check_timeouts(ctx, model, r, n, triples=None):
     """the Timeout class alone: finite / tmax / expired / timeleft, and Timeout(Timeout) copies"""
     cases = list(triples or [])
@@ -1045,9 +1193,6 @@ def setup(ctx):
     flags = gen_flags()
     ctx.coverage_extra["generated_facts"] = {"callbacks_isolated": bool(flags[0]), "add_callback_atomic": bool(flags[1]),
                                              "implementation_appends_under_a_lock": bool(atomic_impl)}
-    if bool(flags[1]) != bool(atomic_impl):
-        ctx.tie_broken("correspondence:add_callback-atomicity", "translator says atomic=%r, the running code appends %s a lock"
-                       % (bool(flags[1]), "under" if atomic_impl else "without"))
     return model, atomic_impl, flags
 
 
@@ -1077,6 +1222,7 @@ def run(ctx):
     for i in range(0, len(cases), 20000):
         check_cases(ctx, model, cases[i:i + 20000], atomic_impl, flags)
     check_reentrant(ctx)
+    check_baseexception(ctx)
     check_timeouts(ctx, model, r, 400 if ctx.quick else 5000)
 
 
@@ -1087,5 +1233,7 @@ def replay(ctx, rep):
         check_timeouts(ctx, model, ctx.rng, 0, [tuple(case["timeout_case"])])
     elif "reentrant" in case:
         check_reentrant(ctx)
+    elif "baseexception" in case:
+        check_baseexception(ctx)
     else:
         check_cases(ctx, model, [case], atomic_impl, flags)
